@@ -38,7 +38,8 @@ def run_shard(binpath, lines, timeout, env=None, extra_args=(), wrapper=()):
                            timeout=timeout, env=env)
         res.returncode = p.returncode
         out = p.stdout.decode("utf-8", "replace")
-        res.stderr = p.stderr.decode("utf-8", "replace")[-8000:]
+        err = p.stderr.decode("utf-8", "replace")
+        res.stderr = err if len(err) <= 16000 else err[:10000] + "\n...\n" + err[-6000:]
     except subprocess.TimeoutExpired as e:
         res.timed_out = True
         out = (e.stdout or b"").decode("utf-8", "replace")
